@@ -605,7 +605,11 @@ def obj2bytes(obj):
     elif isinstance(obj, tuple):
         return obj2bytes(list(obj))
     elif isinstance(obj, list):
-        return b"".join(obj2bytes(o) for o in obj)
+        # prefix each item with its length (unambiguous concatenation,
+        # otherwise e.g. [1.0, 23.0] and [1.02, 3.0] are identical)
+        items = [obj2bytes(o) for o in obj]
+        return b"".join(str(len(it)).encode("utf-8") + b":" + it
+                        for it in items)
     elif isinstance(obj, dict):
         return obj2bytes(sorted(obj.items()))
     elif isinstance(obj, lmfit.parameter.Parameter):
